@@ -181,6 +181,9 @@ def gen_parent(rng, versions, versions2=None, comp=None, comp2=None, step=60):
     names = rng.sample(["origin/release/5.4", "origin/release/5.10", "origin/release/5.5",
                         "origin/master" if n % 3 else "origin/main"], rng.randint(1, 3))
     heads = {nm: (rng.choice(ids[-(n // 2 + 1):]) if rng.random() < 0.8 else rng.choice(ids)) for nm in names}
+    if rng.random() < 0.12 and ("origin/master" in heads) != ("origin/main" in heads):
+        # the trunk was renamed and the old ref is still there (stale, or still moving)
+        heads["origin/main" if "origin/master" in heads else "origin/master"] = rng.choice(ids)
     tags = {}
     bn = 0
     for cid in ids:
@@ -308,7 +311,14 @@ def _judge_a(ctx, comp, par, versions, pins, reverse_order, case, second, n_repo
             mock.decoys = {"origin/master": min(mock.commits)}
             mock._publish_branches()
         ctx.count("scenarios_tracking_a_remote_other_than_origin")
-    order_in = [('par', (mg.PRepo2 if second else mg.PRepo)('par', src(par, 'par'), remote)),
+    pcls = mg.PRepo2 if second else mg.PRepo
+    if case.get("kept_cache"):
+        # the owner class keeps what it has read from the version files between the reports (the hook for "a simple
+        # dictionary is not enough"); the first report of the collection asks for a text only commits of the owner mention
+        pcls = type(pcls.__name__ + "KeepsCache", (pcls,), {
+            "_mk_components_versions_cache": lambda self: self.__dict__.setdefault("_vf_kept_cache", {})})
+        ctx.count("owners_that_keep_their_versions_cache_between_reports")
+    order_in = [('par', pcls('par', src(par, 'par'), remote)),
                 ('comp', type(mg.component_repo_for('comp', comp))('comp', src(comp, 'comp'), remote))]
     if second:
         order_in.insert(1, ('comp2', type(mg.component_repo_for('comp2', second[0]))('comp2', src(second[0], 'comp2'),
@@ -330,6 +340,9 @@ def _judge_a(ctx, comp, par, versions, pins, reverse_order, case, second, n_repo
                 # was built once more and the parent, pinning that build, was built on top of a branch head
                 grow(comp, par, versions, pins, case["grow"], second)
                 ctx.count("repositories_grown_between_two_reports")
+            if case.get("kept_cache") and k_rep == 0 and n_reports > 1:
+                dict(repos.make_reports_data("misc "))     # (some commits of the owner say that, none of the component)
+                continue
             data = dict(repos.make_reports_data(TEXT))
         if n_reports > 1:
             ctx.count("reports_on_a_reused_collection")
@@ -337,7 +350,9 @@ def _judge_a(ctx, comp, par, versions, pins, reverse_order, case, second, n_repo
         ctx.violation("report-raises", {"type": type(err).__name__, "msg": str(err)[:200]}, case)
         return
     judge_component(ctx, data, 'comp', comp, par, versions, pins, case)
-    if not ctx.mech_counts and sum(map(ord, str(sorted(pins.items())))) % 3 == 0:
+    two_trunks = "origin/main" in par.branches and "origin/master" in par.branches
+    if not ctx.mech_counts and sum(map(ord, str(sorted(pins.items())))) % 3 == 0 and not two_trunks:
+        # (with two trunks two sections of the printed report are titled 'master': not compared)
         judge_printed(ctx, repos, data, case)
     if second:
         ctx.count("two_component_scenarios")
@@ -399,6 +414,13 @@ def judge_printed(ctx, repos, data, case):
 def judge_component(ctx, data, cname, comp, par, versions, pins, case):
     crg, prg = data[cname], data['par']
     order, exp = mg.branch_oracle(par)
+    # the trunk of the parent may have been renamed with the old ref still there: both are reported as 'master', and
+    # which of the two sorts lower is not said anywhere. The two are judged together, under both readings: an entry
+    # for 'master' has to be a first shipping build of one of the trunks in one of the readings
+    trunks = [b for b in ("origin/main", "origin/master") if b in par.branches]
+    readings = [exp] if len(trunks) < 2 else [mg.branch_oracle(par, lower_trunk=t)[1] for t in trunks]
+    if len(trunks) == 2:
+        ctx.count("parents_with_two_trunks")
     ptags = {}
     for tname, cid in par.tags.items():
         m = re.match(r"build_(\d+)_release_(\d+)_(\d+)_success", tname)
@@ -453,6 +475,8 @@ def judge_component(ctx, data, cname, comp, par, versions, pins, case):
                 got.setdefault(str(bname), []).append(str(bnum))
             for b in order:
                 e = exp[b]
+                if len(trunks) == 2 and b == trunks[1]:
+                    continue        # (judged together with the other trunk)
                 ctx.count("component_build_x_parent_branch_decisions")
 
                 def contains(x):
@@ -468,11 +492,26 @@ def judge_component(ctx, data, cname, comp, par, versions, pins, case):
 
                 def bnames(x):
                     return ptags.get(x, {"8888.8888.8888"})
-                exp_names = set().union(*[bnames(x) for x in minimal]) if minimal else set()
                 g = got.get(mg.short_branch(b), [])
+                if len(trunks) == 2 and b == trunks[0]:
+                    # per reading: what the two trunks together would show; the first reading the entries fit is taken
+                    fits = []
+                    for reading in readings:
+                        cont_r, min_r = set(), set()
+                        for t in trunks:
+                            c_t = {x for x in reading[t]['builds'] if contains(x)}
+                            cont_r |= c_t
+                            min_r |= {x for x in c_t
+                                      if not any(y != x and y in mg.ancestors(par.commits[x]) for y in c_t)}
+                        names_r = set().union(*[bnames(x) for x in min_r]) if min_r else set()
+                        fits.append((bool(cont_r) == bool(g) and set(g) <= names_r, cont_r, min_r))
+                    fits.sort(key=lambda f: not f[0])
+                    _, cont, minimal = fits[0]
+                exp_names = set().union(*[bnames(x) for x in minimal]) if minimal else set()
                 where = {"component_branch": cbr.branch_name, "component_build_commit": rc,
                          "parent_branch": b, "included_at": g}
-                if len(g) != len(set(g)):
+                pair = len(trunks) == 2 and b == trunks[0]
+                if len(g) != len(set(g)) and not (pair and all(g.count(x) <= 2 for x in g)):
                     problems.append(("duplicate-included-at", where))
                 if in_pinned_branch:
                     if not cont:
@@ -484,8 +523,8 @@ def judge_component(ctx, data, cname, comp, par, versions, pins, case):
                         elif not set(g) <= exp_names:
                             problems.append(("included-at-is-not-the-first-containing-build",
                                              dict(where, expected=sorted(exp_names))))
-                        br = prb.get(mg.short_branch(b))
-                        names = {str(rb.build_num): rb for rb in br.rbuilds.values()} if br else {}
+                        names = {str(rb.build_num): rb for br in prg.branches
+                                 if br.branch_name == mg.short_branch(b) for rb in br.rbuilds.values()}
                         if not set(g) <= set(names):
                             problems.append(("first-shipping-parent-build-not-reported",
                                              dict(where, reported=sorted(names))))
@@ -699,6 +738,8 @@ def run_shard(ctx):
             case["disk_refs"] = {"seed": rng.getrandbits(32), "loose": rng.choice([0.0, 0.3, 0.6])}
         if rng.random() < 0.15:
             case["remote"] = rng.choice(["upstream", "up/stream"])
+        if n_reports > 1 and rng.random() < 0.4:
+            case["kept_cache"] = True
         if second:
             case.update(comp2=mg.describe(comp2), versions2=[[c, list(v)] for c, v in versions2],
                         pins2={str(k): v for k, v in pins2.items()})
